@@ -497,12 +497,34 @@ func (q *qgen) agg(d int) string {
 	if (op == "topk" || op == "bottomk") && grp != "" && !g.on("agg:topk-grouped") {
 		grp = ""
 	}
-	arg := q.vector(d - 1)
+	param := ""
 	switch op {
 	case "topk", "bottomk":
-		return fmt.Sprintf("%s%s (%s, %s)", op, grp, q.kparam(d-1), arg)
+		param = q.kparam(d - 1)
 	case "quantile":
-		return fmt.Sprintf("%s%s (%s, %s)", op, grp, q.phi(d-1), arg)
+		param = q.phi(d - 1)
+	}
+	// The pinned Prometheus version decides whether an aggregation is step-invariant from its
+	// operand alone and ignores the parameter: 'topk(scalar(x), y @ 10)' is evaluated once, with
+	// the parameter of the first step. With a parameter that is not a constant the reference itself
+	// then disagrees between range and instant evaluation, so no @ is generated in such operands.
+	varying := strings.ContainsAny(param, "(abcdefghijklmnopqrstuvwxyz") && !strings.HasPrefix(param, "Inf") && !strings.HasPrefix(param, "-Inf") && param != "NaN"
+	if varying {
+		q.noAt++
+		defer func() { q.noAt-- }()
+	}
+	arg := q.vector(d - 1)
+	if varying {
+		// ... and the operand must read a series (an all-literal operand is step-invariant as well)
+		for tries := 0; tries < 5 && !strings.Contains(arg, "m0") && !strings.Contains(arg, "m1") && !strings.Contains(arg, "h_bucket"); tries++ {
+			arg = q.vector(d - 1)
+		}
+		if !strings.Contains(arg, "m0") && !strings.Contains(arg, "m1") && !strings.Contains(arg, "h_bucket") {
+			arg = "m0"
+		}
+	}
+	if param != "" {
+		return fmt.Sprintf("%s%s (%s, %s)", op, grp, param, arg)
 	}
 	return fmt.Sprintf("%s%s (%s)", op, grp, arg)
 }
